@@ -1520,3 +1520,81 @@ def run_c08(ctx):
 
 
 REGISTRY["C08"] = dict(module="Properties_C08", run=run_c08)
+
+
+# ------------------------------------------------------------------------------------------
+# C15: locale
+
+C15_TEXTS = [b"a = 1.5; b = [ 2.25e2, 0.125, -7.0 ]; c = \"x,y 1,5\"; d = ( 1e-3, { e = 123456.789; } );",
+             b"f = 0.1;\n@include \"locinc.cfg\"\ng = 3.75;"]
+
+
+def c15_body(glob, thr):
+    body = ["init", "fs put %s %s" % (hx(b"locinc.cfg"), hx(b"h = 9.5;\n")),
+            "fs put %s %s" % (hx(b"locfile.cfg"), hx(C15_TEXTS[0]))]
+    if glob:
+        body.append("locale global %s" % hx(glob))
+    if thr:
+        body.append("locale thread %s" % hx(thr))
+    body.append("locq")
+    for sci in (0, 1):
+        body.append("option 32 %d" % sci)
+        for t in C15_TEXTS:
+            body += ["reads %s" % hx(t), "locq", "dump", "write", "locq", "readst %s" % hx(t), "locq", "dump"]
+        body += ["readf %s" % hx(b"locfile.cfg"), "locq", "dump", "writef %s" % hx(b"locout.cfg"), "locq",
+                 "fs cat %s" % hx(b"locout.cfg"), "reads %s" % hx(b"x = ;"), "locq", "readf %s" % hx(b"nosuch"), "locq"]
+    return "\n".join(body) + "\n"
+
+
+def c15_cases():
+    cases = []
+    for glob in (None, b"xx_XX.utf8", b"C.utf8"):
+        for thr in (None, b"xx_XX.utf8", b"C.utf8"):
+            cases.append(c15_body(glob, thr))
+    return cases
+
+
+def run_c15(ctx):
+    res = Result()
+    rc = replay_cases(ctx)
+    cases = rc if rc is not None else c15_cases()
+    if rc is None:
+        res.exhaustive = True
+    runner = ctx.runner()
+    ref = run_single(runner, c15_body(None, None))
+    ref_lines = [l for l in ref["impl"] if not l.startswith("R loc ") and not l.startswith("S ")]
+
+    def oracle(script, rec):
+        bad = died(script, rec)
+        lines = rec["impl"]
+        if any(l == "R locale-unavailable" for l in lines):
+            return ["the comma-decimal test locale is not available (LOCPATH)"]
+        locs = [l for l in lines if l.startswith("R loc ")]
+        if len(set(locs)) > 1:
+            bad.append("the caller's locale changed across a call: %s" % sorted(set(locs)))
+        if any(l.startswith("L GLOBAL-LOCALE-CHANGED") for l in lines):
+            bad.append("the process-wide locale string changed")
+        got = [l for l in lines if not l.startswith("R loc ") and not l.startswith("S ") and not l.startswith("L GLOBAL")]
+        # same values and same text as in the C locale (the reference case has no locale ops: drop their 'R unit')
+        nops = sum(1 for l in script.splitlines() if l.startswith("locale "))
+        got2 = got[:3] + got[3 + nops:]
+        nref = len([l for l in c15_body(None, None).splitlines() if l])
+        full = len([l for l in script.splitlines() if l and not l.startswith("locale ")]) == nref
+        if full and got2 != ref_lines:
+            d = first_diff(ref_lines, got2)
+            bad.append("result differs from the C-locale result: C locale %s, here %s" % (d[1][:120], d[2][:120]))
+        return bad
+    res.rule = ("process-wide locale {C, comma-decimal, C.utf8} x thread locale {none, comma-decimal, C.utf8 object} x "
+                "{read_string, read(stream), read_file with include, write, write_file} x scientific notation off/on over "
+                "float-bearing configurations and failing reads; after every call: uselocale(0) identity, "
+                "setlocale(LC_NUMERIC, NULL), the caller's printf radix; all values and texts compared with the model and, "
+                "model-free, with the C-locale run")
+    res.distinct = len(set(cases))
+    res.samples = [cases[4][:700]] if len(cases) > 4 else []
+    res.distribution["grid"] = "3 x 3 locales x 20 calls"
+    correspond(ctx, res, cases, drop_prefixes=("L open", "L close"), oracle=oracle,
+               known=lambda s, r, o: match_known("C15", s, r, o), per_proc=1)
+    return res
+
+
+REGISTRY["C15"] = dict(module="Properties_C15", run=run_c15)
